@@ -19,26 +19,37 @@ import w_units as W
 Q_TIMES_SIZE = (1e-5, 1e-3, 0.03, 0.3, 1.0, 2.5, 6.0, 20.0)
 
 
-def observe(tid, model_name, table, pars, q, mode):
+def observe_raw(kernel, pars, mode):
+    """One observation on a given kernel; the returned arrays are kept AS RETURNED (no copy, no conversion)."""
     from sasmodels.direct_model import call_kernel, call_Fq
-    model = W.get_model(model_name)
-    res = {"raised": False, "error": "", "F1": [], "F2": [], "I": [],
-           "reff": "nan", "vshell": "nan", "ratio": "nan"}
-    kernel = None
+    raw = {"raised": False, "error": "", "F1": None, "F2": None, "I": None, "reff": float("nan"),
+           "vshell": float("nan"), "ratio": float("nan")}
     try:
-        kernel = model.make_kernel([np.asarray(q, "d")])
-        res["I"] = W.fvec(call_kernel(kernel, dict(pars)))
+        raw["I"] = call_kernel(kernel, dict(pars))
         fp = dict(pars)
         fp["radius_effective_mode"] = mode
-        F1, F2, reff, vshell, ratio = call_Fq(kernel, fp)
-        res.update(F1=W.fvec(F1) if F1 is not None else [], F2=W.fvec(F2), reff=W.fstr(reff),
-                   vshell=W.fstr(vshell), ratio=W.fstr(ratio))
+        raw["F1"], raw["F2"], raw["reff"], raw["vshell"], raw["ratio"] = call_Fq(kernel, fp)
     except Exception as exc:                                    # logged, judged by the spec
-        res.update(raised=True, error=repr(exc)[:300])
-    if kernel is not None:
-        kernel.release()
+        raw.update(raised=True, error=repr(exc)[:300])
+    return raw
+
+
+def emit_obs(tid, model_name, table, pars, q, mode, raw):
+    res = {"raised": raw["raised"], "error": raw["error"], "F1": [], "F2": [], "I": [],
+           "reff": "nan", "vshell": "nan", "ratio": "nan"}
+    if not raw["raised"]:
+        res.update(I=W.fvec(raw["I"]), F1=W.fvec(raw["F1"]) if raw["F1"] is not None else [], F2=W.fvec(raw["F2"]),
+                   reff=W.fstr(raw["reff"]), vshell=W.fstr(raw["vshell"]), ratio=W.fstr(raw["ratio"]))
     W.emit({"ev": "AmpObs", "tid": tid, "model": model_name, "table": table,
             "pars": W.jsonable_pars(pars), "q": W.fvec(q), "mode": int(mode), "res": res})
+
+
+def observe(tid, model_name, table, pars, q, mode):
+    model = W.get_model(model_name)
+    kernel = model.make_kernel([np.asarray(q, "d")])
+    raw = observe_raw(kernel, pars, mode)
+    emit_obs(tid, model_name, table, pars, q, mode, raw)
+    kernel.release()
 
 
 def plan(req):
@@ -58,6 +69,10 @@ def plan(req):
         pars["background"] = rng.choice([0.0, 0.001, 2.0 ** -7])
         smax, _ = W.length_scale(info, pars)
         q = [c / smax for c in Q_TIMES_SIZE]
+        # one kernel serves the whole parameter set (dispersity off and on, every mode), as in a fit; what each call
+        # returned is kept as returned and only read after the last call
+        kernel = W.get_model(name).make_kernel([np.asarray(q, "d")])
+        kept = []
         for disperse in (False, True):
             p = dict(pars)
             if disperse:
@@ -65,8 +80,11 @@ def plan(req):
                 if len(p) == len(pars):
                     continue                                   # nothing to disperse
             for mode in range(1, nmodes + 1):
-                observe(tid, name, table, p, q, mode)
+                kept.append((tid, p, mode, observe_raw(kernel, p, mode)))
                 tid += 1
+        for t, p, mode, raw in kept:
+            emit_obs(t, name, table, p, q, mode, raw)
+        kernel.release()
 
 
 def main():
